@@ -73,6 +73,9 @@ pub fn asan_rerun(run: &Run) {
 
 pub fn env_for(lane: &str, exe: &str) -> Vec<(String, String)> {
     let mut v = vec![("VERIF_WORKER_EXE".to_string(), exe.to_string())];
+    // the resource clause is decided by the native run; an instrumented build is several times slower, and its lane looks for
+    // memory errors and races, so its CPU allowance is scaled accordingly
+    if lane == "asan" || lane == "tsan" { v.push(("VERIF_CPU_FACTOR".into(), "10".into())); }
     match lane {
         "asan" => v.push(("ASAN_OPTIONS".into(), "detect_leaks=0:halt_on_error=1:abort_on_error=1:detect_stack_use_after_return=1:allocator_may_return_null=1:symbolize=1".into())),
         "tsan" => v.push(("TSAN_OPTIONS".into(), "halt_on_error=1:abort_on_error=1:second_deadlock_stack=1".into())),
